@@ -69,7 +69,7 @@ def pick_names(rng, code, roles, idents, lifetimes):
                     cand = rng.choice(lifetimes + ["'T", "'H"])
                 else:
                     cand = rng.choice(pool_any)
-                    if role in ("tparam", "cparam", "type") and cand.startswith("r#"):
+                    if role == "type" and cand.startswith("r#"):
                         continue
                     if cand in HARNESS or cand in used or cand in sum(ROLE_TOKENS.values(), []):
                         continue
@@ -127,16 +127,125 @@ NO_STD_ITEMS = [
 ]
 
 
-def judge_pair(base, trans, mapping):
-    """base / trans: compiled Cases.  Returns None | (symptom, detail) | ('harness', note)."""
+DX_ATTR_NAMES = ("derive_ex", "::derive_ex::derive_ex", "ord", "partial_ord", "eq", "partial_eq", "hash", "debug", "default")
+# "some trait is not implemented / some bound does not hold": what a generated impl with a wrong where-clause produces,
+# possibly reported at a span of the user's own tokens (field types keep their spans in the generated code)
+TRAIT_CODES = {"E0277", "E0369", "E0204", "E0600", "E0368"}
+
+
+def strip_dx(code):
+    """The program with every derive_ex attribute (both entry points) and every helper attribute blanked out, line
+    structure kept: the control for errors reported at user-written tokens."""
+    out = list(code)
+    i, n = 0, len(code)
+    while i < n:
+        if code[i] == '"':
+            i += 1
+            while i < n and code[i] != '"':
+                i += 2 if code[i] == "\\" else 1
+            i += 1
+            continue
+        if code[i] == "#":
+            j = i + 1
+            while j < n and code[j] in " \t":
+                j += 1
+            if j < n and code[j] == "[":
+                depth, k, instr = 0, j, False
+                while k < n:
+                    ch = code[k]
+                    if instr:
+                        if ch == "\\":
+                            k += 1
+                        elif ch == '"':
+                            instr = False
+                    elif ch == '"':
+                        instr = True
+                    elif ch in "[({":
+                        depth += 1
+                    elif ch in "])}":
+                        depth -= 1
+                        if depth == 0:
+                            break
+                    k += 1
+                inner = code[j + 1:k].strip()
+                head = re.match(r"[A-Za-z_:]+", inner)
+                name = head.group(0) if head else ""
+                if name in DX_ATTR_NAMES or re.match(r"derive\s*\(\s*::derive_ex::Ex\s*\)$", inner):
+                    for t in range(i, min(k + 1, n)):
+                        if out[t] != "\n":
+                            out[t] = " "
+                i = k + 1
+                continue
+        i += 1
+    return "".join(out)
+
+
+def dx_item_ranges(code):
+    """Line ranges (1-based, inclusive) of the items that carry a derive_ex attribute: from the attribute to the end of the item."""
+    out = []
+    for m in re.finditer(r"#\s*\[\s*(?:::derive_ex::derive_ex|derive_ex|derive\s*\(\s*::derive_ex::Ex)\b", code):
+        start = code.count("\n", 0, m.start()) + 1
+        if out and start <= out[-1][1]:
+            continue
+        i, n, depth, instr = m.start(), len(code), 0, False
+        in_attr = 0
+        end = None
+        while i < n:
+            ch = code[i]
+            if instr:
+                if ch == "\\":
+                    i += 1
+                elif ch == '"':
+                    instr = False
+            elif ch == '"':
+                instr = True
+            elif ch in "([{":
+                depth += 1
+            elif ch in ")]}":
+                depth -= 1
+                if depth == 0 and ch == "}":
+                    end = i
+                    break
+            elif ch == ";" and depth == 0:
+                end = i
+                break
+            i += 1
+        if end is None:
+            end = n - 1
+        out.append((start, code.count("\n", 0, end) + 1))
+    return out
+
+
+def judge_pair(base, trans, mapping, control=None):
+    """base / trans: compiled Cases.  Returns None | (symptom, detail) | ('harness', note) | ('need-control', note).
+    control: the transformed program without derive_ex (strip_dx), compiled; needed when errors are reported both inside
+    and outside derive_ex's output."""
     if base.status != "ok":
         return ("skip", "base program does not compile")
     if trans.status == "compile_fail":
         who, d = C.blame(trans)
-        # a transform that also breaks code written by the user / the harness (any error located outside derive_ex's
-        # output, e.g. a const parameter named like a type is ambiguous for the std derives as well) is not judged
+        # a transform that also breaks code written by the user / the harness (e.g. a const parameter named like a type
+        # is ambiguous for the std derives as well) is not judged.  Errors located outside derive_ex's output are
+        # attributed with a control: if the same program without any derive_ex attribute shows the same error code at the
+        # same line, the transform broke the program itself; an unsatisfied-trait error that the control does not show
+        # comes from a generated impl.
         outside = [x for x in trans.diags if x["level"] == "error" and not x["in_derive_ex"] and x["code"] is not None]
-        if who == "harness" or outside:
+        if outside:
+            # Attributed to the macro only if: the transform is a pure renaming (under scope shadowing the user's own
+            # tokens in bound(..) / key expressions legitimately resolve differently); every such error is an
+            # unsatisfied-trait error located inside an item that carries derive_ex; and the control shows no error at
+            # all inside those items (the renamed item by itself is fine).
+            ranges = dx_item_ranges(trans.code)
+            inside = lambda x: x.get("rel") is not None and any(a <= x["rel"] <= b for a, b in ranges)
+            if SHADOW in trans.code or not all(x["code"] in TRAIT_CODES and inside(x) for x in outside):
+                return ("harness", f"{d['code']}: {str(d['message'])[:120]}")
+            if control is None:
+                return ("need-control", "")
+            if control.status == "inconclusive" or any(x["level"] == "error" and inside(x) for x in control.diags):
+                return ("harness", f"{d['code']}: {str(d['message'])[:120]}")
+            d = outside[0]
+            return ("compiles-differently", f"{d['code']}: {(d['message'] or '')[:160]}")
+        if who == "harness":
             return ("harness", f"{d['code']}: {str(d['message'])[:120]}")
         return ("compiles-differently", f"{d['code']}: {(d['message'] or '')[:160]}")
     if trans.status != "ok":
@@ -154,6 +263,16 @@ def judge_pair(base, trans, mapping):
                 return ("computes-differently", f"base {json.dumps(x)[:200]} vs transformed {json.dumps(y)[:200]}")
         return ("computes-differently", f"{len(eb)} vs {len(ev_t)} events")
     return None
+
+
+def judge_with_control(base, trans, mapping):
+    """judge_pair, compiling the derive_ex-free control in isolation when it is needed."""
+    r = judge_pair(base, trans, mapping)
+    if r and r[0] == "need-control":
+        k = C.Case("c0", strip_dx(trans.code))
+        C.run_cases([k], "isok", header=HEADER, batch_size=1, runnable=False)
+        r = judge_pair(base, trans, mapping, control=k)
+    return r
 
 
 def classify_name(mapping):
@@ -220,7 +339,7 @@ def run(rep, tier, rng):
             if not toks:
                 continue
             names = lifetimes if role == "lifetime" else [n for n in idents + PRELUDE + RAW_OK if n not in HARNESS]
-            if role in ("tparam", "cparam", "type"):
+            if role == "type":
                 names = [n for n in names if not n.startswith("r#")]
             if tier == "quick" and role in ("field", "variant"):
                 names = names[ri % 3::3]       # bindings derived from field / variant names carry a reserved prefix; thinner sweep
@@ -236,6 +355,15 @@ def run(rep, tier, rng):
     for n in notes:
         rep.inconcl(n)
     sigs = {}
+    # controls (the transformed program without any derive_ex attribute) for errors reported at user-written tokens
+    need = [ct for cb, trs, b in plan if cb.status == "ok" for ct in trs
+            if ct.status == "compile_fail" and (judge_pair(cb, ct, ct.meta["mapping"]) or ("",))[0] == "need-control"]
+    ctl = {ct.name: C.Case("k" + ct.name, strip_dx(ct.code), {}) for ct in need}
+    if ctl:
+        _, notes = C.run_cases(list(ctl.values()), "c13k", header=HEADER, batch_size=40, runnable=False)
+        for n in notes:
+            rep.inconcl(n)
+    rep.count("controls_without_derive_ex_compiled", len(ctl))
     for cb, trs, b in plan:
         if cb.status != "ok":
             rep.count("base_programs_rejected")
@@ -244,7 +372,7 @@ def run(rep, tier, rng):
         for ct in trs:
             if ct.status == "inconclusive":
                 continue
-            r = judge_pair(cb, ct, ct.meta["mapping"])
+            r = judge_pair(cb, ct, ct.meta["mapping"], control=ctl.get(ct.name))
             if r and r[0] == "harness":
                 rep.count("transform_broke_the_harness_itself")
                 continue
@@ -272,7 +400,7 @@ def run(rep, tier, rng):
             if sh:
                 code = shadow_transform(code)
             c1 = C.compile_single(code, header=HEADER)
-            r1 = judge_pair(cb, c1, mm)
+            r1 = judge_with_control(cb, c1, mm)
             if r1 and r1[0] == r[0]:
                 best, best_shadow, r2 = mm, sh, r1
                 break
@@ -346,7 +474,7 @@ def replay(rep, path):
         if "shadow" in j["kind"]:
             code = shadow_transform(code)
         ct = C.compile_single(code, header=HEADER)
-        r = judge_pair(cb, ct, j["mapping"])
+        r = judge_with_control(cb, ct, j["mapping"])
         bad = bool(r) and r[0] not in ("harness", "skip")
     if bad:
         print(f"VIOLATION property=C13 replay={path}")
